@@ -209,7 +209,7 @@ def compare(ref, rep, fs):
 
 # ------------------------------------------------------------------ op shapes (mechanism part of symptom keys)
 
-def shapes(tt, fs, git, before_view, disk_before):
+def shapes(tt, fs, git, before_view, disk_before, stored=None):
     """Names of the op shapes present in the transform (state just before apply): preconditions of the known apply-time
     and preview defects.  before_view / disk_before: the start tree (versioned view, disk snapshot)."""
     from breezy.transform import ROOT_PARENT
@@ -249,6 +249,15 @@ def shapes(tt, fs, git, before_view, disk_before):
             stay = [k for k in kids if k.tree_path is not None and not k.moved and not k.removed]
             if stay and f.new_contents:
                 out.add("deleted-directory-keeps-children" if f.kind == "directory" else "directory-becomes-file-children-left-behind")
+        if stored and f.tree_path in stored and f.tree_kind is not None and stored[f.tree_path] != f.tree_kind and not f.removed:
+            if f.moved or f.new_contents or any(k.moved or k.new_contents or k.tree_path is None for k in kids):
+                # the start tree has a pending kind change here: the transform works with the kind on disk, the inventory / index
+                # still has the old kind
+                out.add("pending-kind-change-entry-moved-or-given-children")
+        if f.tree_path is not None and f.tree_kind is None and f.new_contents and not f.removed and stored and f.tree_path in stored \
+                and stored[f.tree_path] != f.kind:
+            # new contents of another kind for a versioned entry that is missing on disk: no deletion, so no kind change is recorded
+            out.add("versioned-entry-missing-on-disk-recreated-as-another-kind")
         if f.tree_kind == "symlink" and any(k.tree_path is not None and k.tree_path.startswith(f.tree_path + "/") for k in kids):
             out.add("symlink-listed-as-directory")
         if not git and f.tree_path is not None and t in tt._removed_id:
@@ -271,7 +280,8 @@ def shapes(tt, fs, git, before_view, disk_before):
 
 # shapes that explain a symptom, most specific first; the first one present names the mechanism
 GLOBAL_ORDER = [
-    "two-present-entries-one-final-path", "git-directory-moved-children-keep-index-paths", "deleted-directory-keeps-children", "directory-becomes-file-children-left-behind",
+    "two-present-entries-one-final-path", "pending-kind-change-entry-moved-or-given-children", "versioned-entry-missing-on-disk-recreated-as-another-kind",
+    "git-directory-moved-children-keep-index-paths", "deleted-directory-keeps-children", "directory-becomes-file-children-left-behind",
     "versioned-entry-without-contents-under-non-directory", "versioned-entry-without-contents-under-missing-parent",
     "contentless-entry-under-non-directory", "symlink-listed-as-directory", "two-trans-ids-one-final-path",
     "existing-unversioned-file-versioned-and-moved", "existing-unversioned-file-versioned", "root-unversioned-reversioned-or-deleted",
@@ -281,10 +291,11 @@ GLOBAL_ORDER = [
 PRIORITY = {
     "apply_deletions": ["deleted-directory-keeps-children", "directory-becomes-file-children-left-behind"],
     "rename": ["contentless-entry-under-non-directory", "versioned-entry-without-contents-under-non-directory", "deleted-directory-keeps-children"],
-    "delta": ["versioned-entry-without-contents-under-non-directory", "versioned-entry-without-contents-under-missing-parent",
+    "delta": ["pending-kind-change-entry-moved-or-given-children", "versioned-entry-missing-on-disk-recreated-as-another-kind",
+              "versioned-entry-without-contents-under-non-directory", "versioned-entry-without-contents-under-missing-parent",
               "two-present-entries-one-final-path", "file-id-moved-to-another-trans-id", "contents-deleted-entry-kept-versioned"],
     "late-conflict": ["symlink-listed-as-directory", "versioned-entry-missing-on-disk"],
-    "preview": ["two-trans-ids-one-final-path", "existing-unversioned-file-versioned-and-moved", "existing-unversioned-file-versioned",
+    "preview": ["pending-kind-change-entry-moved-or-given-children", "two-trans-ids-one-final-path", "existing-unversioned-file-versioned-and-moved", "existing-unversioned-file-versioned",
                 "symlink-listed-as-directory", "root-unversioned-reversioned-or-deleted", "git-directory-moved-children-keep-index-paths"] + GLOBAL_ORDER,
 }
 
@@ -307,8 +318,17 @@ def touched_paths(tt, fs):
     return out
 
 
+RESOLVER_ORDER = ["parent loop", "non-directory parent", "missing parent", "deleting parent", "unversioned parent", "duplicate id", "duplicate",
+                  "versioning no contents"]
+
+
 def attribute(symptom, shape_set):
+    """First op shape (precondition of a known defect) that explains the symptom; failing that, the resolver that produced the
+    layout; failing that 'unattributed' (never a known finding)."""
     for sh in PRIORITY.get(symptom) or GLOBAL_ORDER:
         if sh in shape_set:
             return sh
+    for r in RESOLVER_ORDER:
+        if "after-resolver:" + r.replace(" ", "-") in shape_set:
+            return "after-resolver:" + r.replace(" ", "-")
     return "unattributed"
